@@ -115,10 +115,12 @@ inductive Kind where
   | arr      -- `&mut ArrayVec<[u8; N]>`
   | slice    -- `&mut [u8]`
   | sref     -- `&mut &mut [u8]`
+  | raw      -- `BufferRef::new(&mut [u8], &mut counter)`: slice and counter owned by the caller
   deriving DecidableEq, Repr, Inhabited
 
 /-- a backing container: `buf` is the whole allocation (`buf.length` = capacity), `len` the
-container's length (0 for the slice kinds, whose "contents" are the whole slice) -/
+container's length (0 for the slice kinds, whose "contents" are the whole slice; the caller's
+counter for `raw`, whose contents are the counted prefix of the caller's slice) -/
 structure Store where
   kind : Kind
   buf : List UInt8
@@ -129,20 +131,23 @@ namespace Store
 
 def contents (s : Store) : List UInt8 :=
   match s.kind with
-  | .vec | .arr => s.buf.take s.len
+  | .vec | .arr | .raw => s.buf.take s.len
   | .slice | .sref => s.buf
 
 /-- `VecBuffer::buffer` etc.: the spare capacity `[len, capacity)` with counter 0
-(`none` = `capacity() - len` overflow) -/
+(`none` = `capacity() - len` overflow).  `BufferRef::new` on a caller-owned counter that is not 0:
+`debug_assert!(*initialized == 0)` panics (dev profile). -/
 def top (s : Store) : Option View :=
-  if s.len ≤ s.buf.length then some { mem := s.buf.drop s.len, init := 0 } else none
+  if s.kind = .raw ∧ s.len ≠ 0 then none
+  else if s.len ≤ s.buf.length then some { mem := s.buf.drop s.len, init := 0 } else none
 
 /-- the `Drop` impl of the intermediate object: `set_len(len + initialized)` for the vectors,
 nothing for a slice, narrowing to `[..initialized]` for a slice reference -/
 def release (s : Store) (v : View) : Store :=
   let buf := splice s.buf s.len v.mem
   match s.kind with
-  | .vec | .arr => { s with buf := buf, len := s.len + v.init }
+  -- (`raw`: nothing is dropped; the caller's counter simply holds what the view counted)
+  | .vec | .arr | .raw => { s with buf := buf, len := s.len + v.init }
   | .slice => { s with buf := buf }
   | .sref => { s with buf := buf.take v.init }
 
@@ -158,6 +163,7 @@ inductive Rdr where
   | chain (a b : Rdr) (doneFirst : Bool)    -- `io::Chain`
   | liar (claim : Nat) (fill : UInt8)       -- harness: fills the whole buffer, returns `claim`
   | fail (fill : UInt8)                     -- harness: fills the whole buffer, returns `Err`
+  | bufr (cap : Nat) (buffered : List UInt8) (r : Rdr)   -- `io::BufReader::with_capacity(cap, r)`
   deriving Repr, Inhabited
 
 inductive RdRet where
@@ -194,6 +200,26 @@ def Rdr.read : Rdr → Nat → ReadRes
         else ⟨x.wrote, .panic, .take limit x.next⟩
       | .err => ⟨x.wrote, .err, .take limit x.next⟩
       | .panic => ⟨x.wrote, .panic, .take limit x.next⟩
+  | .bufr cap buffered r, n =>
+    if buffered.isEmpty ∧ cap ≤ n then
+      -- empty internal buffer and a large destination: the internal buffer is bypassed
+      let x := r.read n
+      ⟨x.wrote, x.ret, .bufr cap [] x.next⟩
+    else if buffered.isEmpty then
+      -- `fill_buf`: one read of the inner reader into the internal buffer, then deliver from it
+      let x := r.read cap
+      match x.ret with
+      | .ok k =>
+        if k ≤ cap then
+          let filled := x.wrote.take k
+          let m := min n filled.length
+          ⟨filled.take m, .ok m, .bufr cap (filled.drop m) x.next⟩
+        else ⟨[], .panic, .bufr cap [] x.next⟩   -- the cursor refuses an over-claimed count
+      | .err => ⟨[], .err, .bufr cap [] x.next⟩
+      | .panic => ⟨[], .panic, .bufr cap [] x.next⟩
+    else
+      let m := min n buffered.length
+      ⟨buffered.take m, .ok m, .bufr cap (buffered.drop m) r⟩
   | .chain a b done, n =>
     if done then
       let y := b.read n
@@ -288,6 +314,10 @@ def openView (s : Sess) (caps : List Nat) : Sess × Bool :=
     | some v => ({ s with stack := v :: s.stack }, true)
     | none => (unwind { s with stack := b :: s.stack }, false)
 
+/-- a caller-owned `BufferRef` is not a `Buffer`: it cannot be capped (only views *of* it can) -/
+def rawCapped (s : Sess) (caps : List Nat) : Bool :=
+  s.stack.isEmpty && (s.store.kind == .raw) && !caps.isEmpty
+
 /-- `read_buffer_ref` on the innermost (fresh) view, after which the closure of `read_buffer`
 returns: `reader.read(buf.uninitialized_mut())?; buf.advance(read); buf.initialized()` -/
 def readTop (s : Sess) : Sess × Resp :=
@@ -329,9 +359,11 @@ def step (s : Sess) : Op → Sess × Resp
       | some n => (s, .num n)
       | none => (unwind s, .panic)
   | .openV caps =>
-    match s.openView caps with
-    | (s', true) => (s', .opened)
-    | (s', false) => (s', .panic)
+    if s.rawCapped caps then (s, .badOp)
+    else
+      match s.openView caps with
+      | (s', true) => (s', .opened)
+      | (s', false) => (s', .panic)
   | .init =>
     match s.stack with
     | [] => (s, .badOp)
@@ -345,9 +377,11 @@ def step (s : Sess) : Op → Sess × Resp
     | _ :: _ => (s.pop, .closed none)
   | .setr r => ({ s with rdr := r }, .done)
   | .read caps =>
-    match s.openView caps with
-    | (s', false) => (s', .panic)
-    | (s', true) => s'.readTop
+    if s.rawCapped caps then (s, .badOp)
+    else
+      match s.openView caps with
+      | (s', false) => (s', .panic)
+      | (s', true) => s'.readTop
 
 def run (s : Sess) : List Op → Sess × List Resp
   | [] => (s, [])
@@ -362,7 +396,7 @@ end Sess
 def Store.fresh (k : Kind) (cap : Nat) (old : List UInt8) (junk : UInt8) : Store :=
   match k with
   | .vec | .arr => { kind := k, buf := old ++ List.replicate (cap - old.length) junk, len := old.length }
-  | .slice | .sref => { kind := k, buf := old, len := 0 }
+  | .slice | .sref | .raw => { kind := k, buf := old, len := 0 }
 
 def Sess.fresh (st : Store) : Sess := { store := st, stack := [], rdr := .empty }
 
